@@ -95,7 +95,7 @@ pub fn tag(v: &Value) -> Value {
         Value::Bool(b) => json!({"t": "bool", "v": b}),
         Value::Number(n) => {
             if let Some(i) = n.as_i64() {
-                if i.abs() < 1_000_000_000 {
+                if i.unsigned_abs() < 1_000_000_000 {
                     return json!({"t": "int", "v": i});
                 }
             }
@@ -365,6 +365,9 @@ pub fn schema_text(s: &Value, out: &mut String) {
                 })
                 .collect();
             out.push_str(&serde_json::to_string(&names).unwrap());
+        } else if k == "types" {
+            push_key(out, &mut first, "type");
+            out.push_str(&v.to_string());
         } else if k == "titleChars" {
             push_key(out, &mut first, "title");
             out.push_str(&serde_json::to_string(&tokens_str(v)).unwrap());
